@@ -14,14 +14,18 @@
 EXTENDS Integers, Sequences, FiniteSets, TLC
 
 \* ---------------------------------------------------------------- the registered options (fixture)
-Opts == {"str", "arr", "num", "flg", "re", "al", "fn", "beta", "exp", "rl"}
+Opts == {"str", "arr", "num", "flg", "re", "al", "fn", "nre", "nal", "are", "beta", "exp", "rl"}
 Keys == Opts \cup {"unk"}                      \* "unk": a key that is not registered
+\* str arr num flg: plain options of the four types; re: string + regex; al: string + allowed values;
+\* fn: int + validation function; nre: int + regex; nal: int + allowed values; are: string array + regex;
+\* beta, exp: options at release level beta / experimental; rl: the release-level option of the package
 OType == [str |-> "S", arr |-> "A", num |-> "I", flg |-> "B", re |-> "S", al |-> "S", fn |-> "I",
-          beta |-> "S", exp |-> "I", rl |-> "S"]
-Level == [str |-> 0, arr |-> 0, num |-> 0, flg |-> 0, re |-> 0, al |-> 0, fn |-> 0,
+          nre |-> "I", nal |-> "I", are |-> "A", beta |-> "S", exp |-> "I", rl |-> "S"]
+Level == [str |-> 0, arr |-> 0, num |-> 0, flg |-> 0, re |-> 0, al |-> 0, fn |-> 0, nre |-> 0, nal |-> 0, are |-> 0,
           beta |-> 1, exp |-> 2, rl |-> 0]     \* 0 stable, 1 beta, 2 experimental
 Reg == [str |-> "S:d", arr |-> "A:d", num |-> "I:7", flg |-> "B:false", re |-> "S:a", al |-> "S:x",
-        fn |-> "I:0", beta |-> "S:d", exp |-> "I:1", rl |-> "S:stable"]   \* registered defaults
+        fn |-> "I:0", nre |-> "I:0", nal |-> "I:4", are |-> "A:a",
+        beta |-> "S:d", exp |-> "I:1", rl |-> "S:stable"]   \* registered defaults
 Types == {"S", "A", "I", "B"}
 Fallback == [S |-> "S:FB", A |-> "A:F|B", I |-> "I:-99", B |-> "B:true"]  \* fallback arguments of the getters
 
@@ -35,6 +39,7 @@ RawTab == {
     <<"s:stable", "S", "S:stable">>, <<"s:beta", "S", "S:beta">>, <<"s:experimental", "S", "S:experimental">>,
     \* []string, []interface{} (JSON-decoded array)
     <<"ss:a,b", "A", "A:a|b">>, <<"ss:x", "A", "A:x">>, <<"ss:", "A", "A:">>,
+    <<"ss:nil", "A", "A:">>,                                  \* []string(nil): an empty array
     <<"is:a,b", "A", "A:a|b">>, <<"is:y", "A", "A:y">>, <<"is:", "A", "A:">>, <<"is:a,#1", "-", "-">>,
     \* Go integer types, float64 (JSON-decoded number), float32
     <<"i:4", "I", "I:4">>, <<"i:5", "I", "I:5">>, <<"i:0", "I", "I:0">>, <<"i:7", "I", "I:7">>,
@@ -52,12 +57,17 @@ As(v) == RawOf[v][2]
 Canon(v) == RawOf[v][3]
 Matching(o) == {v \in RawIds : As(v) = OType[o]}      \* raw values of the option's own type
 
-\* regular expression ^[ab]+$, allowed values {x, y}, validation function "even", allowed release levels
+\* re, are: regular expression ^[ab]+$ (are: on every entry); al: allowed values {x, y}; fn: validation
+\* function "even"; nre: regular expression ^-?[0-9]+$ (every integer matches); nal: allowed values
+\* {4, 6, 2^53}; rl: the three release levels
 Even == {"I:4", "I:0", "I:-2", "I:6", "I:8", P53, M53}
 ConstraintOK(o, c) ==
     CASE o = "re" -> c \in {"S:a", "S:ab"}
       [] o = "al" -> c \in {"S:x", "S:y"}
       [] o = "fn" -> c \in Even
+      [] o = "nre" -> TRUE
+      [] o = "nal" -> c \in {"I:4", "I:6", P53}
+      [] o = "are" -> c \in {"A:a|b", "A:"}
       [] o = "rl" -> c \in {"S:stable", "S:beta", "S:experimental"}
       [] OTHER    -> TRUE
 Valid(o, v) == As(v) = OType[o] /\ ConstraintOK(o, Canon(v))
